@@ -140,7 +140,7 @@ pub fn run(out: &mut Out, tier: &str, seed: u64) {
     names.name("_");
     let mut rng = Rng::new(seed ^ 0xC07);
     // corpus
-    if let Ok(rd) = std::fs::read_dir("/verif/corpus") {
+    if let Ok(rd) = std::fs::read_dir(format!("{}/corpus", crate::out::verif_root())) {
         let mut files: Vec<_> = rd.filter_map(|e| e.ok()).map(|e| e.path()).filter(|p| p.extension().map_or(false, |x| x == "g")).collect();
         files.sort();
         for p in files { if let Ok(src) = std::fs::read_to_string(&p) { check_text(out, &mut names, &src, &[], true); } }
@@ -166,7 +166,7 @@ pub fn run(out: &mut Out, tier: &str, seed: u64) {
     }
     // E-small sentences (a sample in quick)
     let n = if tier == "thorough" { 5 } else { 4 };
-    if let Ok(f) = std::fs::File::open(format!("/verif/build/gen/esmall-{n}.txt")) {
+    if let Ok(f) = std::fs::File::open(format!("{}/build/gen/esmall-{n}.txt", crate::out::verif_root())) {
         for line in std::io::BufReader::new(f).lines().map_while(Result::ok) {
             check_text(out, &mut names, &line, &[], false);
         }
